@@ -250,3 +250,7 @@ Definition mss_parse_gen (fixed : bool) (isp : rune -> bool) (s : str) : outcome
 Definition map_ss_parse_gen (fixed : bool) (isp : rune -> bool) (s : str) : outcome (list (str * str)) :=
   split_map isp fixed
     (fun m k v => if mem_str k (map fst m) then Err e_dup else Ok (m ++ [(k, v)])) s [].
+
+(* the current tree (with the fix: commit for finding 9) *)
+Definition mss_parse := mss_parse_gen true.
+Definition map_ss_parse := map_ss_parse_gen true.
